@@ -11,6 +11,7 @@ func init() {
 	vHarnesses["H_C02_roundtrip_values"] = H_C02_roundtrip_values
 	vHarnesses["H_C02_roundtrip_opts"] = H_C02_roundtrip_opts
 	vHarnesses["H_C02_roundtrip_cast"] = H_C02_roundtrip_cast
+	vHarnesses["H_C02_roundtrip_entities"] = H_C02_roundtrip_entities
 }
 
 // vSingleRoot: the bytes tokenise (real encoding/xml) as exactly one root element with
@@ -148,4 +149,19 @@ func H_C02_roundtrip_cast() {
 	CastValuesToBool(vChoose(2) == 1)
 	vC02cast(root, vDecOpts{attrPrefix: "-", textKey: "#text"}, vChoose(2) == 1, true)
 	vResetCastOpts()
+}
+
+// values that contain escape sequences as literal text (&amp; &lt; &#x41; ]]> <![CDATA[ ...)
+func H_C02_roundtrip_entities() {
+	n := 2
+	if vTier() == 1 {
+		n = 3
+	}
+	v := vNondetSpecial(n)
+	vAssume(refTrim(v, false) != "")
+	kid := &vXElem{name: "k", items: []vXItem{{kind: 1, text: v}}}
+	root := &vXElem{name: "r", attrs: [][2]string{{"a", v}}, items: []vXItem{{kind: 0, el: kid}}}
+	o := vDecOpts{attrPrefix: "-", textKey: "#text"}
+	o.escape = vNondetBool()
+	vC02(root, o, vChoose(2) == 1)
 }
